@@ -17,6 +17,7 @@ import shutil
 import tempfile
 
 from .. import carts
+from .. import ambient
 from .. import refcodec as rc
 
 LEVEL = 'exploration'
@@ -217,7 +218,7 @@ def run_case(ctx, rng, c, workdir):
                 shutil.move(dest, out)
             listing_before = sorted(os.listdir(workdir))
             dest = out
-            rcode = tool.main(['-q', 'writep8', src])
+            rcode = tool.main([ambient.vflag(), 'writep8', src])
             if rcode:
                 raise RuntimeError('p8tool returned %r' % rcode)
             with open(out, 'rb') as fh:
